@@ -256,13 +256,13 @@ static Any* make(const std::string& cls, int P) {
     if (cls == "Poly1FactorDom<GFqDom<int64_t>,Dense>") { typedef Poly1FactorDom<GFqDom<int64_t>, Dense> PD; GFqDom<int64_t> B((uint64_t)GP[P], (uint64_t)GE[P]); return new Box<PD, pr_fact<PD> >(PD(B, Indeter(P & 1 ? "Y" : "X"))); }
     if (cls == "IntRNSsystem<vector>") {
         typedef IntRNSsystem<std::vector, std::allocator> R; std::vector<Integer> pr;
-        static const long PS[4][5] = {{3, 5, 7, 0, 0}, {11, 13, 17, 19, 0}, {1000003, 1000033, 999983, 65521, 2}, {2, 3, 0, 0, 0}};
+        static const long PS[4][5] = {{3, 5, 7, 0, 0}, {11, 13, 17, 19, 0}, {1000003, 1000033, 999983, 65521, 0}, {2, 3, 5, 0, 0}};
         for (int k = 0; k < 5 && PS[P][k]; ++k) pr.push_back(Integer(PS[P][k]));
         return new BoxM<R, pr_intrns<R> >(R(pr));
     }
     if (cls == "RNSsystem<Integer,Modular<double>>") {
         typedef RNSsystem<Integer, Modular<double> > R;
-        static const long PS[4][5] = {{3, 5, 7, 0, 0}, {11, 13, 17, 19, 0}, {1009, 1013, 65521, 2, 0}, {2, 3, 0, 0, 0}};
+        static const long PS[4][5] = {{3, 5, 7, 0, 0}, {11, 13, 17, 19, 0}, {1009, 1013, 65521, 2, 0}, {2, 3, 5, 0, 0}};
         int n = 0; while (n < 5 && PS[P][n]) ++n;
         R::domains dm(n); for (int k = 0; k < n; ++k) dm[k] = Modular<double>((double)PS[P][k]);
         return new BoxM<R, pr_rns<R> >(R(dm));
@@ -270,4 +270,31 @@ static Any* make(const std::string& cls, int P) {
     return 0;
 }
 
+
+// ------------------------------------------------------------------ mutators: re-parameterise a live object in place
+// (event sN:P).  Afterwards the object must behave exactly like a fresh object built from parameter set P.
+//   RNSsystem::setPrimes(domains)            Modular<T>::read(istream&) / Modular<Log16>::read(istream&)   "(z, <p>)"
+template <class BOX> static bool mutate_read(Any* a, const std::string& cls, int P) {
+    BOX* b = static_cast<BOX*>(a);
+    Any* f = make(cls, P); Integer p = toI(static_cast<BOX*>(f)->d.characteristic()); delete f;
+    std::stringstream ss; ss << "(z, " << p << ")";
+    b->d.read(ss);
+    return true;
+}
+#define MUT_READ(NAME, T) if (cls == NAME) return mutate_read<RINGBOX(T) >(a, cls, P);
+static bool mutate(const std::string& cls, Any* a, int P) {
+    P &= 3;
+    MUT_READ("Modular<int32_t>", Modular<int32_t>) MUT_READ("Modular<uint32_t>", Modular<uint32_t>) MUT_READ("Modular<int64_t>", Modular<int64_t>)
+    MUT_READ("Modular<uint64_t>", Modular<uint64_t>) MUT_READ("Modular<float>", Modular<float>) MUT_READ("Modular<double>", Modular<double>)
+    MUT_READ("Modular<Integer>", Modular<Integer>) MUT_READ("Modular<Log16>", Modular<Log16>)
+    if (cls == "RNSsystem<Integer,Modular<double>>") {
+        typedef RNSsystem<Integer, Modular<double> > R;
+        Any* f = make(cls, P); R& src = static_cast<BoxM<R, pr_rns<R> >*>(f)->d;
+        R::domains dm(src.Primes().size()); for (size_t k = 0; k < src.Primes().size(); ++k) dm[k] = src.Primes()[k];
+        static_cast<BoxM<R, pr_rns<R> >*>(a)->d.setPrimes(dm);
+        delete f;
+        return true;
+    }
+    return false;
+}
 #endif
